@@ -3,7 +3,7 @@ import itertools
 import time
 
 from .. import env  # noqa
-from .. import report
+from .. import report, enumx
 from ..seqx import viol
 from cloudsync.providers.mock import MockProvider
 from cloudsync import CloudSync
@@ -28,9 +28,7 @@ CONFIGS = [
 
 
 def strings(maxlen, alpha=ALPHA):
-    for n in range(0, maxlen + 1):
-        for t in itertools.product(alpha, repeat=n):
-            yield "".join(t)
+    return enumx.strings(maxlen, alpha)
 
 
 def _call(vs, law, f, *a):
